@@ -400,6 +400,49 @@ def view_index_is_fixed_at_creation(a: int, b: int, n: int) -> bool:
     return _same(first, full[0, 1, n]) and _same(got, full[:, :, n + 1]) and _once(log)
 
 
+def eval_receives_python_integers(form: int, i: int, n: int) -> bool:
+    """
+    pre: 0 <= form <= 3 and 0 <= i <= 1 and 0 <= n <= 3
+    post: _
+    """
+    # the documented signature of eval is eval(*index) with integer indices: fixed-width numpy integers overflow / refuse negative powers
+    form, i, n = _c(form, 0, 3), _c(i, 0, 1), _c(n, 0, 3)
+    seen = []
+
+    def ev(*index):
+        seen.extend(type(k) is int for k in index)
+        return 2 ** -index[-1]  # raises for numpy integers
+
+    s = BlockSeries(eval=ev, shape=(2,), n_infinite=1)
+    item = [(i, n), (slice(None), n), ([i, 0], n), (i, slice(0, n + 1))][form]
+    try:
+        s[item]
+    except ValueError:
+        return False
+    return all(seen) and len(seen) > 0
+
+
+def out_of_range_finite_view(i: int, j: int) -> bool:
+    """
+    pre: -4 <= i <= 3 and -4 <= j <= 3
+    post: _
+    """
+    # a finite-dimension-only index is resolved when it is applied, like numpy: out of range => IndexError at once
+    i, j = _c(i, -4, 3), _c(j, -4, 3)
+    log = []
+    s = _mk((2, 2), 1, log)
+    try:
+        np.empty((2, 2))[i, j]
+        expect_error = False
+    except IndexError:
+        expect_error = True
+    try:
+        view = s[i, j]
+    except IndexError:
+        return expect_error
+    return (not expect_error) and isinstance(view, BlockSeries) and log == []
+
+
 def numpy_integer_indices(form: int, a: int, b: int) -> bool:
     """
     pre: 0 <= form <= 4 and -2 <= a <= 2 and -2 <= b <= 3
